@@ -22,8 +22,9 @@ func (e *entry[K, V]) String() string {
 }
 
 type node[K comparable, V Conn] struct {
-	next *entry[K, V]
-	prev *entry[K, V]
+	next   *entry[K, V]
+	prev   *entry[K, V]
+	linked bool // true while the entry is a member of the list
 }
 
 type list[K comparable, V Conn] struct {
@@ -45,10 +46,15 @@ func (l *list[K, V]) appendEntry(ent *entry[K, V], node func(*entry[K, V]) *node
 	}
 	l.tail = ent
 	l.count++
+	node(ent).linked = true
 }
 
 func (l *list[K, V]) removeEntry(ent *entry[K, V], node func(*entry[K, V]) *node[K, V]) {
 	n := node(ent)
+	if !n.linked {
+		return // already removed, e.g. by Take racing with the expiration callback
+	}
+	n.linked = false
 	if l.head == ent {
 		l.head = n.next
 	}
